@@ -14,6 +14,8 @@ from ..permeance import Permeance, Units
 from ..process import ProcessModel
 from ..utils import R
 
+MAX_ITERATIONS = 100000
+
 
 def get_permeate_composition_from_fluxes(
     fluxes: typing.Tuple[float, float],
@@ -124,7 +126,14 @@ class Pervaporation:
         permeate_composition = get_permeate_composition_from_fluxes(initial_fluxes)
 
         d = 1
+        iterations = 0
         while d >= precision:
+            iterations += 1
+            if iterations > MAX_ITERATIONS:
+                raise ValueError(
+                    "Permeate composition did not converge in %s iterations"
+                    % MAX_ITERATIONS
+                )
             try:
                 permeate_composition_new = get_permeate_composition_from_fluxes(
                     self.get_partial_fluxes_from_permeate_composition(
